@@ -36,6 +36,35 @@ def edge_jacobian_obligation(cfg, k, unit=True):
     return run
 
 
+def stale_state_obligation(cfg):
+    """History independence: evaluate the edge at one state, overwrite every pose / measurement / offset *in place* with new
+    symbolic values (same objects), evaluate again: the second answer must be what a fresh edge gives at the new state."""
+    from ..interp import Pose
+    from ..poly import Poly as P
+
+    def fn(it):
+        p1, p2, z, off = sym_config(cfg, unit=True)
+        e = make_edge(it, cfg, p1, p2, z, off)
+        it.call_method(e, "calc_error", [])
+        it.call_method(e, "calc_chi2", [])
+        it.call_method(e, "calc_jacobians", [])
+        q1, q2, zz, oo = sym_config(cfg, unit=True, names=("q1", "q2", "zz", "oo"))
+        for old, new in ((p1, q1), (p2, q2), (z, zz), (off, oo)):
+            if old is not None:
+                old.data[:] = list(new.data)          # in-place overwrite, object identity preserved
+        J2 = it.call_method(e, "calc_jacobians", [])       # Jacobians first: nothing may rely on a preceding calc_error
+        err2 = it.call_method(e, "calc_error", [])
+        fresh = make_edge(it, cfg, q1, q2, zz, oo)
+        err3 = it.call_method(fresh, "calc_error", [])
+        J3 = it.call_method(fresh, "calc_jacobians", [])
+        require_same(err2, err3, "%s: after the poses were modified in place calc_error still answers for the old state" % cfg_name(cfg))
+        for k in (0, 1):
+            require_same(J2[k], J3[k], "%s: after the poses were modified in place calc_jacobians()[%d] still answers for the old state "
+                                       "(a cached intermediate result)" % (cfg_name(cfg), k))
+        return dict(mode="history-independence")
+    return lambda pkg: run_obligation(pkg, fn)
+
+
 def run(run_, pkg, tier):
     run_.explanation = ("For each of the 8 well-typed built-in edge configurations and each of its 2 vertices, the normal form of "
                         "calc_jacobians()[k] (translated through every pose Jacobian method it multiplies) equals the formal "
@@ -57,6 +86,11 @@ def run(run_, pkg, tier):
                 tasks.append((key, "C01-edge-jacobian", edge_jacobian_obligation(cfg, k, unit=True), "%s:%d" % (fn._gs_module, fn.lineno)))
             if tier == "thorough" and run_.wants(key + "/pure"):
                 tasks.append((key + "/pure", "C01-edge-jacobian-pure", edge_jacobian_obligation(cfg, k, unit=False), "%s:%d" % (fn._gs_module, fn.lineno)))
+    for cfg in CONFIGS:
+        key = "%s/history-independent" % cfg_name(cfg)
+        fn = pkg.method(cfg[0], "calc_jacobians")
+        if run_.wants(key):
+            tasks.append((key, "C01-history-independence", stale_state_obligation(cfg), "%s:%d" % (fn._gs_module, fn.lineno)))
     run_.floor("edge Jacobian obligations", sum(1 for t in tasks if t[1] == "C01-edge-jacobian") if run_.only is None else 16, 16)
     others = [c for c in pkg.subclasses("BaseEdge") if c not in ("EdgeOdometry", "EdgeLandmark") and pkg.own_method(c, "calc_jacobians")]
     for c in others:
